@@ -1,0 +1,69 @@
+//go:build verif
+
+package streams
+
+// Contracts for the goverif VC generator (/verif). Comment-only file: it adds no code.
+
+// ---- C01 / C02 / C32: streams.Stdin --------------------------------------------------------------------
+//
+// Ghost history: $W = every byte ever accepted by Write (positions 0..$wlen), $rlen = number of
+// bytes handed to readers, $closed = the stream was force-closed (data may be dropped from then on).
+// Lock invariant: what is buffered is exactly the not-yet-delivered part of what was written, in
+// order, and the counters equal the history lengths. Every critical section of every function in
+// the package must re-establish it from ANY state satisfying it (= all interleavings of critical
+// sections). Guarantee: history only grows; the data type is set at most once, never to ""/null.
+
+//@ type Stdin guarded_by mutex: buffer, bRead, bWritten, dependents, dataType, max
+//@ type Stdin ghost W seq
+//@ type Stdin ghost wlen int
+//@ type Stdin ghost rlen int
+//@ type Stdin ghost closed bool
+//@ type Stdin invariant self.$closed || (0 <= self.$rlen && self.$rlen <= self.$wlen && len(self.buffer) == self.$wlen - self.$rlen && self.bWritten == self.$wlen && self.bRead == self.$rlen)
+//@ type Stdin invariant self.$closed || forall(k, 0, len(self.buffer), self.buffer[k] == self.$W[self.$rlen+k])
+//@ type Stdin guarantee imp(old(self.$closed), self.$closed)
+//@ type Stdin guarantee self.$closed || (old(self.$wlen) <= self.$wlen && old(self.$rlen) <= self.$rlen && forall(k, 0, old(self.$wlen), self.$W[k] == old(self.$W[k])))
+//@ type Stdin guarantee imp(old(self.dataType) != "", self.dataType == old(self.dataType))
+//@ type Stdin guarantee imp(self.dataType != old(self.dataType), self.dataType != "" && self.dataType != "null")
+
+//@ func appendBytes [C01 C19]
+//@   modifies elems(slice)
+//@   ensures len(result) == len(slice) + len(data)
+//@   ensures forall(k, 0, len(slice), result[k] == old(slice[k]))
+//@   ensures forall(k, 0, len(data), result[len(slice)+k] == old(data[k]))
+
+// Write: the appending critical section adds exactly p to the history; (len(p), nil) is returned.
+//@ func (*Stdin).Write [C01 C19 C32]
+//@   requires stdin != nil && stdin.ctx != nil
+//@   ghost at unlock 1: stdin.$closed = true
+//@   ghost at unlock 3: stdin.$W = seqput(stdin.$W, stdin.$wlen, p)
+//@   ghost at unlock 3: stdin.$wlen = stdin.$wlen + len(p)
+//@   inst len(stdin.buffer) - len(p)
+//@   ensures imp(len(p) == 0, result == 0 && result1 == nil)
+//@   ensures imp(result1 == nil, result == len(p))
+//@   ensures imp(result1 != nil, result == 0)
+
+// Read: hands out the oldest undelivered bytes, in order, and removes exactly those.
+//@ func (*Stdin).Read [C01 C19 C32]
+//@   requires stdin != nil && stdin.ctx != nil
+//@   ghost at unlock 2: stdin.$rlen = stdin.$rlen + i
+//@   inst i
+//@   ensures imp(result1 == nil, 0 <= result && result <= len(p))
+//@   ensures imp(result1 == nil && !old@lock2(stdin.$closed), forall(k, 0, result, p[k] == old@lock2(stdin.$W[stdin.$rlen+k])))
+//@   ensures imp(result1 != nil, result == 0)
+
+//@ func (*Stdin).Open [C01 C19 C32]
+//@   requires stdin != nil
+//@ func (*Stdin).Close [C01 C19 C32]
+//@   requires stdin != nil
+//@ func (*Stdin).Stats [C01 C19 C32]
+//@   requires stdin != nil
+//@   ensures imp(!old@lock1(stdin.$closed), result == old@lock1(stdin.$wlen) && result1 == old@lock1(stdin.$rlen))
+
+//@ func (*Stdin).SetDataType [C02 C19 C32]
+//@   requires stdin != nil
+//@   ensures imp(len(dt) != 0 && dt != "null" && old@lock1(stdin.dataType) == "", stdin.dataType == dt)
+//@   ensures imp(len(dt) != 0 && dt != "null" && old@lock1(stdin.dataType) != "", stdin.dataType == old@lock1(stdin.dataType))
+
+//@ func (*Stdin).GetDataType [C02 C19 C32]
+//@   requires stdin != nil && stdin.ctx != nil
+//@   ensures result != ""
